@@ -347,7 +347,16 @@ func clipS(s string) string {
 var c14Kinds = []string{"arp", "icmp", "udp", "tcpsyn", "tcpfin", "tcpnull", "tcpxmas", "tcpflags", "socks", "elastic", "docker"}
 
 func c14GenString(t *rapid.T, label string) []byte {
-	switch rapid.IntRange(0, 7).Draw(t, label+"-class") {
+	switch rapid.IntRange(0, 8).Draw(t, label+"-class") {
+	case 8:
+		// text that LOOKS like what an encoder emits: escape sequences spelled out literally (a label holding JSON or Go
+		// source), entity-like tokens, format verbs - anything a post-processing step might mistake for its own output
+		n := rapid.IntRange(1, 4).Draw(t, label+"-ntok")
+		var sb strings.Builder
+		for i := 0; i < n; i++ {
+			sb.WriteString(rapid.SampledFrom([]string{`\u0026`, `\u003c`, `\u003e`, `\u2028`, `\n`, `\"`, `\\`, `\x00`, `\ud83d`, "&amp;", "&lt;", "%s", "%!d(MISSING)", "${HOME}", "{{.}}", `"}`, `{"a":`, "a", " "}).Draw(t, label+"-tok"))
+		}
+		return []byte(sb.String())
 	case 0:
 		return []byte(rapid.SampledFrom([]string{"192.168.0.1", "10.0.0.7", "b0:be:76:40:05:8d", "Apple, Inc.", "sa", "", "http"}).Draw(t, label))
 	case 1:
@@ -431,7 +440,7 @@ func c14GenRes(t *rapid.T, kinds []string, pool [][]byte) c14Res {
 func TestC14JSON(t *testing.T) {
 	kit.Run(t, kit.Spec[c14Case]{
 		Prop: "C14",
-		Rule: "sequences of 0..300 results of every type (arp, icmp, udp, tcp x5, socks, elastic with nested server-supplied objects, docker) with string fields drawn from: plain, quotes/backslashes/control chars/U+2028/non-BMP, arbitrary bytes (invalid UTF-8), very long (to 70k); through the real JSON logger. Oracle: one line per result in order, each line one JSON object (stdlib decoder, no raw control chars, no trailing data) whose documented keys decode back to the fields (invalid UTF-8 compares as U+FFFD). non-trivial: >=2 results and hostile characters present; distinct by case",
+		Rule: "sequences of 0..300 results of every type (arp, icmp, udp, tcp x5, socks, elastic with nested server-supplied objects, docker) with string fields drawn from: plain, quotes/backslashes/control chars/U+2028/non-BMP, escape sequences and entity tokens spelled out literally (\\u0026, \\n, &amp;, %s ...), arbitrary bytes (invalid UTF-8), very long (to 70k); through the real JSON logger. Oracle: one line per result in order, each line one JSON object (stdlib decoder, no raw control chars, no trailing data) whose documented keys decode back to the fields (invalid UTF-8 compares as U+FFFD). non-trivial: >=2 results and hostile characters present; distinct by case",
 		Gen: func(t *rapid.T) c14Case {
 			n := rapid.SampledFrom([]int{0, 1, 2, 3, 5, 12, 40, 300}).Draw(t, "n")
 			c := c14Case{}
